@@ -437,7 +437,14 @@ func (o *oracles) checkConverters(final bool) {
 			}
 			o.s.res.Count("c16_output_checks", 1)
 			if d != digest[id] {
-				if o.violate("convert", "stale-output", fmt.Sprintf("converter %s: cached output of stream %d was made for payload %s, the stream's current payload is %s", cn, id, d, digest[id])) {
+				// a stale entry stays stale: attribute it to the step (and cause) at which it was first seen
+				key := fmt.Sprintf("conv/%s/%d/%s", cn, id, d)
+				sig, seen := o.firstSeen[key]
+				if !seen {
+					sig = "stale-output@" + o.trigger() + o.onDemandNote
+					o.firstSeen[key] = sig
+				}
+				if o.violate("convert", sig, fmt.Sprintf("converter %s: cached output of stream %d was made for payload %s, the stream's current payload is %s", cn, id, d, digest[id])) {
 					return
 				}
 			}
@@ -478,3 +485,8 @@ func (o *oracles) afterRestart() {
 }
 
 var _ = os.Remove
+
+// missingNote qualifies a missing output at quiescence.
+func (o *oracles) missingNote(conv string, stream uint64) string {
+	return ""
+}
